@@ -134,6 +134,14 @@ type Gen struct {
 	regions   map[string]string // obligation name -> known-finding region (contract expression)
 	curEnv    func() *Env
 	prop      string
+	pure      int // >0: pure-term mode
+	escaped   map[string]bool // Local: heaps whose address escaped
+	nLocal    int
+}
+
+// keepHeap: heaps an unknown callee cannot write: ghost variables, immutable globals, address-taken locals that never escaped.
+func (g *Gen) keepHeap(k string) bool {
+	return g.ghost[k] || g.immutableHeap(k) || (strings.HasPrefix(k, "Local:") && !g.escaped[k])
 }
 
 func NewGen(p *Prog) *Gen {
@@ -145,10 +153,20 @@ func NewGen(p *Prog) *Gen {
 
 func newGen0(p *Prog) *Gen {
 	return &Gen{P: p, sorts: p.sorts, heapSorts: map[string]string{}, declared: map[string]bool{}, fieldIDs: map[string]int{},
-		strLits: map[string]string{}, typeTags: map[string]int{}, trusted: map[string]bool{}, ghost: map[string]bool{}, funcIDs: map[string]int{}, uf: map[string]bool{}}
+		strLits: map[string]string{}, typeTags: map[string]int{}, trusted: map[string]bool{}, ghost: map[string]bool{}, funcIDs: map[string]int{}, uf: map[string]bool{}, escaped: map[string]bool{}}
 }
 
-func (g *Gen) emit(cmd string) { g.cmds = append(g.cmds, cmd) }
+func (g *Gen) emit(cmd string) {
+	if g.pure > 0 {
+		// pure-term mode (closure bodies inlined under quantifiers): only declarations of global symbols may be emitted
+		if strings.HasPrefix(cmd, "(declare-const |") && strings.Contains(cmd, "@e") || strings.HasPrefix(cmd, "(declare-fun ") ||
+			strings.HasPrefix(cmd, "(declare-const ") && strings.Contains(cmd, "@e") {
+			g.cmds = append(g.cmds, cmd)
+		}
+		return
+	}
+	g.cmds = append(g.cmds, cmd)
+}
 
 func (g *Gen) note(format string, a ...interface{}) {
 	s := fmt.Sprintf(format, a...)
@@ -161,6 +179,9 @@ func (g *Gen) note(format string, a ...interface{}) {
 }
 
 func (g *Gen) fresh(prefix, sort string) string {
+	if g.pure > 0 {
+		panic(evalErr{"fresh symbol needed while inlining a pure closure"})
+	}
 	g.nfresh++
 	sym := quote(fmt.Sprintf("%s!%d", prefix, g.nfresh))
 	g.emit(fmt.Sprintf("(declare-const %s %s)", sym, sort))
@@ -169,6 +190,9 @@ func (g *Gen) fresh(prefix, sort string) string {
 
 // define introduces a named abbreviation for a term (keeps the script a DAG).
 func (g *Gen) define(prefix, sort, term string) string {
+	if g.pure > 0 {
+		return term
+	}
 	if len(term) < 40 && !strings.Contains(term, " ") {
 		return term
 	}
@@ -248,18 +272,13 @@ func (g *Gen) havocAll(st *State) {
 	oldAlloc := g.heapGet(st, g.allocHeap())
 	ghosts := map[string]string{}
 	for k, v := range st.h {
-		if g.ghost[k] || g.immutableHeap(k) {
+		if g.keepHeap(k) {
 			ghosts[k] = v
 		}
 	}
-	// ghost heaps never mentioned yet keep their epoch-independent symbol: materialise them first
-	for k := range g.ghost {
-		if _, ok := ghosts[k]; !ok {
-			ghosts[k] = g.heapGet(st, k)
-		}
-	}
+	// kept heaps never mentioned yet keep their current symbol: materialise them first
 	for k := range g.heapSorts {
-		if g.immutableHeap(k) {
+		if g.keepHeap(k) {
 			if _, ok := ghosts[k]; !ok {
 				ghosts[k] = g.heapGet(st, k)
 			}
@@ -457,6 +476,9 @@ func (g *Gen) typeInv(t string, ty types.Type, st *State, depth int) string {
 // ---------------------------------------------------------------------------------------------
 
 func (g *Gen) oblige(kind, name, label string, props []string, reach, cond, src string, pos token.Pos) *Oblig {
+	if g.pure > 0 {
+		return &Oblig{Name: name, Gen: g}
+	}
 	o := &Oblig{Name: name, Kind: kind, Label: label, Props: props, Reach: reach, Cond: cond, Src: src, Gen: g, Expect: "unsat"}
 	if g.root != nil {
 		o.Func = g.root.String()
